@@ -150,7 +150,7 @@ func (ia *Intervals) Of(t *Term) Interval {
 	if r.OK && (math.IsNaN(r.Lo) || math.IsNaN(r.Hi) || math.IsInf(r.Lo, 0) || math.IsInf(r.Hi, 0)) {
 		r = Interval{}
 	}
-	if r.OK && t.W > 0 && t.W <= 64 {
+	if r.OK && t.W > 0 && t.W <= 64 && t.Op != OConst {
 		// integer-valued: snap the outward-rounded bounds back to integers
 		r.Lo, r.Hi = math.Floor(r.Lo+0.01), math.Ceil(r.Hi-0.01)
 		// must fit the signed range of the width without wrapping
@@ -266,7 +266,8 @@ func (ia *Intervals) of(t *Term) Interval {
 		}
 	case OFToS:
 		if a.OK {
-			return Interval{math.Floor(a.Lo) - 1, math.Ceil(a.Hi) + 1, true}
+			// truncation toward zero is monotone; the float bounds are already outward
+			return Interval{math.Trunc(a.Lo), math.Trunc(a.Hi), true}
 		}
 	case OSext:
 		return a
@@ -299,3 +300,84 @@ func (ia *Intervals) of(t *Term) Interval {
 
 // Invalidate drops memoised results (after new refinements were learned).
 func (ia *Intervals) Invalidate() { ia.memo = map[uint64]Interval{} }
+
+// Decide evaluates a Boolean term by interval reasoning: known=false when the
+// intervals do not settle it.
+func (ia *Intervals) Decide(c *Term) (val, known bool) {
+	switch c.Op {
+	case OConst:
+		return c.Lo != 0, true
+	case OBNot:
+		v, k := ia.Decide(c.A[0])
+		return !v, k
+	case OBAnd:
+		v1, k1 := ia.Decide(c.A[0])
+		v2, k2 := ia.Decide(c.A[1])
+		if (k1 && !v1) || (k2 && !v2) {
+			return false, true
+		}
+		if k1 && k2 {
+			return true, true
+		}
+		return false, false
+	case OBOr:
+		v1, k1 := ia.Decide(c.A[0])
+		v2, k2 := ia.Decide(c.A[1])
+		if (k1 && v1) || (k2 && v2) {
+			return true, true
+		}
+		if k1 && k2 {
+			return false, true
+		}
+		return false, false
+	case OSlt, OSle, OEq, OUlt, OUle:
+		if c.A[0].W <= 0 || c.A[0].W > 64 {
+			return false, false
+		}
+		if c.Op == OEq {
+			// the overflow-check idiom (x*k)/k == x holds when x*k cannot wrap
+			for i := 0; i < 2; i++ {
+				d, x := c.A[i], c.A[1-i]
+				if d.Op == OSDiv && d.A[1].IsConst() && !isZero(d.A[1]) && d.A[0].Op == OMul {
+					m := d.A[0]
+					if (m.A[0] == x && m.A[1] == d.A[1]) || (m.A[1] == x && m.A[0] == d.A[1]) {
+						if ia.Of(m).OK {
+							return true, true
+						}
+					}
+				}
+			}
+		}
+		a, b := ia.Of(c.A[0]), ia.Of(c.A[1])
+		if !a.OK || !b.OK {
+			return false, false
+		}
+		if (c.Op == OUlt || c.Op == OUle) && (a.Lo < 0 || b.Lo < 0) {
+			return false, false
+		}
+		switch c.Op {
+		case OSlt, OUlt:
+			if a.Hi < b.Lo {
+				return true, true
+			}
+			if a.Lo >= b.Hi {
+				return false, true
+			}
+		case OSle, OUle:
+			if a.Hi <= b.Lo {
+				return true, true
+			}
+			if a.Lo > b.Hi {
+				return false, true
+			}
+		case OEq:
+			if a.Hi < b.Lo || b.Hi < a.Lo {
+				return false, true
+			}
+			if a.Lo == a.Hi && b.Lo == b.Hi && a.Lo == b.Lo {
+				return true, true
+			}
+		}
+	}
+	return false, false
+}
